@@ -255,9 +255,11 @@ func c08Check(c c08Case, rec *evid.Recorder) *Fail {
 			prevL, prevC = s.GenLine, s.GenCol
 			ok := false
 			var why string
-			for _, u16 := range []bool{false, true} {
-				g := gen.offset(s.GenLine, s.GenCol, u16)
-				so := srcIdx.offset(s.SrcLine, s.SrcCol, u16)
+			// column units: bytes or UTF-16 code units, chosen per side (the property
+			// does not fix the unit; on ASCII-only lines all readings coincide)
+			for _, units := range [][2]bool{{false, false}, {true, true}, {true, false}, {false, true}} {
+				g := gen.offset(s.GenLine, s.GenCol, units[0])
+				so := srcIdx.offset(s.SrcLine, s.SrcCol, units[1])
 				if g < 0 || g >= len(res.Code) {
 					why = fmt.Sprintf("generated position %d:%d lies outside the generated code", s.GenLine, s.GenCol)
 					continue
